@@ -498,6 +498,7 @@ def run (ctx):
     ctx.ob('R-EFFECT', sr, "every stats reply part enters reassembly exactly once", iv == (1, 1), "count %s" % (iv,), sr, 'D3')
   # ---- mechanisms this property shares with others: their checks' rules about these functions are obligations here too
   ctx.include('C05', ['EventMixin.raiseEvent', 'EventMixin.addListener'], 'statistics and port events are delivered by revent')
+  ctx.include('C01', ['_readzs', '_packzs'], "port names reach the port view through the fixed-width string codec")
   ctx.include('C09', ['_finish_connecting', 'handle_PORT_STATUS'], 'early port-status messages are replayed by the handshake')
 
 def early_port_status_kept (ctx, repo, hsc, clause):
